@@ -27,6 +27,7 @@ type c09P struct {
 	AfterStop bool   // Notify/Callback issued after WaitStatus returned
 	HandlerCB bool   // a call handler issues a callback and returns its result
 	BgCtx     bool   // the outside callbacks use context.Background() (a context that can never end)
+	NoBuiltin bool   // ServerOptions.DisableBuiltin: unrelated to pushing, must change nothing
 }
 
 func (p c09P) name() string {
@@ -41,7 +42,7 @@ func (p c09P) name() string {
 	for _, kv := range []struct {
 		on bool
 		s  string
-	}{{p.Cancel, "cancel"}, {p.PeerCall, "peer-call-id-1"}, {p.NoteWaits, "notification-awaits-callback"}, {p.Stop, "stop"}, {p.Notify, "notify"}, {p.AfterStop, "after-stop"}, {p.HandlerCB, "handler-callback"}, {p.BgCtx, "background-ctx"}} {
+	}{{p.Cancel, "cancel"}, {p.PeerCall, "peer-call-id-1"}, {p.NoteWaits, "notification-awaits-callback"}, {p.Stop, "stop"}, {p.Notify, "notify"}, {p.AfterStop, "after-stop"}, {p.HandlerCB, "handler-callback"}, {p.BgCtx, "background-ctx"}, {p.NoBuiltin, "builtins-disabled"}} {
 		if kv.on {
 			f = append(f, kv.s)
 		}
@@ -82,7 +83,7 @@ func c09Scenario(p c09P, b Bounds) *Scenario {
 					vs.Note("h_exit", req.Method(), req.ID(), t, ctxErrStr(ctx))
 					return t, nil
 				}
-				srv = jrpc2.NewServer(anyAssigner{hd}, &jrpc2.ServerOptions{Concurrency: 3, AllowPush: p.Push})
+				srv = jrpc2.NewServer(anyAssigner{hd}, &jrpc2.ServerOptions{Concurrency: 3, AllowPush: p.Push, DisableBuiltin: p.NoBuiltin})
 				srv.Start(lib)
 				var j Join
 				ctxs := make([]context.Context, p.N)
@@ -735,6 +736,73 @@ func c09SendFault(b Bounds) *Scenario {
 	}
 }
 
+// c09Many: n callbacks one after the other on one server (and an outside Notify between them): every
+// one transmits one valid request whose id no earlier callback had, and returns the reply bearing it.
+func c09Many(n int) *Scenario {
+	return &Scenario{
+		Name:   fmt.Sprintf("%d callbacks in sequence on one server", n),
+		Params: map[string]any{"callbacks": n},
+		Bounds: Bounds{0, 0, 0},
+		New: func() *Instance {
+			body := func() {
+				lib, peer, _ := NewPipe(PipeOpts{Name: "srv", CloseUnblocksRecv: true})
+				srv := jrpc2.NewServer(anyAssigner{func(context.Context, *jrpc2.Request) (any, error) { return 1, nil }}, &jrpc2.ServerOptions{AllowPush: true})
+				srv.Start(lib)
+				vs.GoNamed("peer", func() {
+					for {
+						rec, ok := peer.Recv()
+						if !ok {
+							return
+						}
+						ms, _, err := parseRecord(rec)
+						if err != nil {
+							vs.Note("many-viol", "the server transmitted a record that is not valid JSON: "+string(rec))
+							continue
+						}
+						for _, m := range ms {
+							if m.Has("method") && m.Has("id") {
+								peer.Send([]byte(fmt.Sprintf(`{"jsonrpc":"2.0","id":%s,"result":"r:%s"}`, m.ID(), m.ID())))
+							}
+						}
+					}
+				})
+				seen := map[string]bool{}
+				for k := 0; k < n; k++ {
+					ctx, cancel := cancelCauseCtx()
+					vs.GoNamed("unstick", func() { vs.AwaitQuiescence(); cancel() })
+					rsp, err := srv.Callback(ctx, fmt.Sprintf("cb%d", k), nil)
+					cancel()
+					switch {
+					case err != nil:
+						vs.Note("many-viol", fmt.Sprintf("callback %d of %d did not return its reply: %v", k+1, n, err))
+					case seen[rsp.ID()] || rsp.ResultString() != fmt.Sprintf("%q", "r:"+rsp.ID()):
+						vs.Note("many-viol", fmt.Sprintf("callback %d of %d returned id %s result %s: not a fresh id with the reply bearing it", k+1, n, rsp.ID(), rsp.ResultString()))
+					}
+					if err == nil {
+						seen[rsp.ID()] = true
+					}
+					if k == n/2 {
+						srv.Notify(context.Background(), "between", nil)
+					}
+					vs.AwaitQuiescence()
+				}
+				peer.Close()
+				srv.WaitStatus()
+			}
+			return &Instance{Body: body, Check: func(x *vs.Exec) []Viol {
+				v := genericRules(x, nil)
+				Hit("C09.R5")
+				for _, e := range x.Log {
+					if e.K == "many-viol" {
+						v = append(v, Viol{"C09.R5", e.Arg(0)})
+					}
+				}
+				return v
+			}}
+		},
+	}
+}
+
 func c09Scenarios(tier string) []*Scenario {
 	var out []*Scenario
 	add := func(p c09P, b Bounds) { out = append(out, c09Scenario(p, b)) }
@@ -766,6 +834,11 @@ func c09Scenarios(tier string) []*Scenario {
 	add(c09P{Push: true, N: 0, Script: "none", NoteWaits: true, Stop: true}, b2)
 	add(c09P{Push: true, N: 0, Script: "none", HandlerCB: true, Stop: true}, b2)
 	add(c09P{Push: true, N: 1, Script: "inorder", Notify: true}, b2)
+	add(c09P{Push: true, N: 1, Script: "dup", NoBuiltin: true}, b1)
+	add(c09P{Push: true, N: 1, Script: "unknown", ErrForm: true, NoBuiltin: true}, b1)
+	add(c09P{Push: true, N: 1, Script: "late", Cancel: true, NoBuiltin: true}, b1)
+	add(c09P{Push: false, N: 1, Script: "none", NoBuiltin: true}, b1)
+	out = append(out, c09Many(13))
 	out = append(out, c09Reissue(false, b1), c09Restart(1, b2), c09SendFault(b2))
 	add(c09P{Push: true, N: 0, Script: "none", Notify: true, AfterStop: true}, b1)
 	add(c09P{Push: false, N: 1, Script: "none", Notify: true, AfterStop: true}, b1)
